@@ -12,14 +12,14 @@ Ev == TraceLog[l]
 
 TInit == /\ l = 1 /\ okc = TRUE /\ done = FALSE
          /\ act = [binary |-> FALSE, dir |-> FALSE, fork |-> FALSE, proto |-> 0, winnl |-> FALSE, tunnel |-> FALSE, confirm |-> TRUE]
-         /\ args = [quiet |-> FALSE, overwrite |-> FALSE, binary |-> FALSE, directory |-> FALSE, bufk |-> 1, timeout |-> 0, compress |-> 0, stmux |-> FALSE]
+         /\ args = [quiet |-> FALSE, overwrite |-> FALSE, binary |-> FALSE, directory |-> FALSE, bufk |-> 1, timeout |-> 0, compress |-> 0, stmux |-> FALSE, winsrv |-> FALSE]
          /\ relay = [tmux |-> FALSE, width |-> 0]
          /\ actOut = RewriteAct(act) /\ cfgIn = ServerCfg(RewriteAct(act), args)
-         /\ cfgOut = RewriteCfg(ServerCfg(RewriteAct(act), args), relay)
+         /\ cfgOut = RewriteCfg(ServerCfg(RewriteAct(act), args), relay, act, args)
 
 Same(r, s, fields) == \A f \in fields : r[f] = s[f]
 ActF == {"binary", "dir", "fork", "proto", "winnl", "tunnel", "confirm"}
-CfgF == {"quiet", "overwrite", "directory", "bufk", "timeout", "compress", "binary", "proto", "junk", "width"}
+CfgF == {"quiet", "overwrite", "directory", "bufk", "timeout", "compress", "binary", "proto", "junk", "width", "newline"}
 
 THs == /\ l <= Len(TraceLog) /\ Ev.e = "hs" /\ l' = l + 1
        /\ Ev.ok
@@ -28,7 +28,7 @@ THs == /\ l <= Len(TraceLog) /\ Ev.e = "hs" /\ l' = l + 1
        \* the implementation computes what the specification computes
        /\ Same(Ev.actOut, RewriteAct(Ev.act), ActF)
        /\ (Ev.confirm => /\ Same(Ev.cfgIn, ServerCfg(RewriteAct(Ev.act), Ev.args), CfgF)
-                         /\ Same(Ev.cfgOut, RewriteCfg(ServerCfg(RewriteAct(Ev.act), Ev.args), Ev.relay), CfgF)
+                         /\ Same(Ev.cfgOut, RewriteCfg(ServerCfg(RewriteAct(Ev.act), Ev.args), Ev.relay, Ev.act, Ev.args), CfgF)
                          /\ Ev.status = 2)
        /\ (~Ev.confirm => Ev.status = 0)
        /\ okc' = Ev.confirm /\ UNCHANGED done
@@ -39,6 +39,7 @@ TNoBinaryWithoutTunnel == okc => NoBinaryWithoutTunnel
 TProtocolClamped == okc => ProtocolClamped
 TOnlyAdds == okc => OnlyAdds
 TActOnlyNarrows == ActOnlyNarrows
+TNewlineAsDirect == okc => NewlineAsDirect
 
 HW == IF l > TLCGet(1) THEN TLCSet(1, l) ELSE TRUE
 ASSUME TLCSet(1, 0)
